@@ -158,6 +158,7 @@ def check(col: Collector, tier: str):
     check_emission(col, repo)
     # R6 resolver
     check_resolver(col, repo)
+    check_backends_alike(col, repo)
 
 
 def _kind_of(repo: Repo, mod, fn_node, e: ast.AST) -> str:
@@ -331,6 +332,11 @@ def _check_argument_text(col: Collector, repo: Repo, f, join_call, arg_var):
             f"(`(*p)->pt()` starts with '(' and ends with ')'); {why}", f.loc)
 
 
+def check_backends_alike(col: Collector, repo: Repo):
+    from sa.props._tr import check_backend_visitors_override_only_abstract
+    check_backend_visitors_override_only_abstract(col, "C12.R9", repo)
+
+
 def check_resolver(col: Collector, repo: Repo):
     c = repo.find_class("find_known_functions")
     v = c.methods.get("visit_Call")
@@ -398,3 +404,15 @@ def check_resolver(col: Collector, repo: Repo):
                    for n in ast.walk(v.node))
     col.add("C12.R6", "find_known_functions.visit_Call", "lookup-not-defaulted", has_membership and not uses_get,
             "table lookup must be a membership test + subscript, never .get(name, default)", v.loc)
+    # a documented function is always handed to C++: the pass returns the call node it was given (never a value computed at translation
+    # time - Python's round/pow/abs and C++'s namesakes differ), and the Python object found by name is used for its module name only
+    prm = v.node.args.args[1].arg
+    rets = [r for r in walk_no_nested(v.node) if isinstance(r, ast.Return)]
+    same = bool(rets) and all(isinstance(r.value, ast.Name) and r.value.id == prm for r in rets)
+    evald = [n.targets[0].id for n in walk_no_nested(v.node) if isinstance(n, ast.Assign) and isinstance(n.value, ast.Call)
+             and call_name(n.value) in ("eval", "getattr") and isinstance(n.targets[0], ast.Name)]
+    used = [src(c)[:50] for c in ast.walk(v.node) if isinstance(c, ast.Call) and (
+        (isinstance(c.func, ast.Name) and c.func.id in evald) or any(isinstance(a, ast.Name) and a.id in evald for a in c.args))]
+    col.add("C12.R6", "find_known_functions.visit_Call", "known-call-is-left-to-C++", same and not used,
+            f"every return must hand back the call node itself (found {[src(r.value)[:30] if r.value is not None else None for r in rets]}) and the "
+            f"Python function object must not be called or passed on (uses: {used}): folding round(2.5) with Python gives 2.0 where std::round gives 3", v.loc)
